@@ -154,6 +154,11 @@ func Combine[V any](s1, s2 Seq[V]) Seq[V] {
 	}
 }
 
+// Breakable delimits the scope of break,
+// rewrite target of switch stmt containing yield and break
+// Break() raised in case clause terminates the switch stmt instead of the enclosing loop
+func Breakable[V any](s Seq[V]) Seq[V] { return delimit(s, kBreak) }
+
 // Continuable delimits the scope of continue,
 // rewrite target of the body of for stmt with post stmt containing yield
 // Continue() raised in body skips the rest of the body instead of the post stmt combined after
